@@ -348,6 +348,11 @@ def execute(prop, scen):
         run = core.Run(prop, scen)
         op = scen["ops"][d.k]
         sl = scen["slots"][op["slot"]]
+        if sl["kind"] == "fitted" and "Domain error" in str(d.exc):
+            # a dependence function fitted to a sub-sample left the admissible range at an extreme
+            # conditioning value of the sample: the workload's model, not the sampler
+            run.inconclusive = "workload: fitted model inadmissible at an extreme sampled conditioning value"
+            return run
         run.violate("I0-draw-raises", f"{sl['kind']}/{type(d.exc).__name__}", {"op_index": d.k, "op": op, "exc": repr(d.exc)[:300], "families": [sl.get("family")] if sl["kind"] == "dist" else [x["family"] for x in sl["dims"]]})
         return run
 
